@@ -238,6 +238,46 @@ def run(ctx):
     ctx.coverage["fold_disagreements_model"] = len(bad)
     if bad and not ctx.violations:
         ctx.broke("K", "tir/ceval.rs vs model/Ceval.v", "model and implementation differ on %d constant expressions; first:\n%s" % (len(bad), pool.describe_mismatch(bad[0])))
+    # ---------------- 2c. block-bodied constant bindings: let/const, reassignment, element writes, nested blocks, early return
+    bpool = tircheck.Pool(ctx)
+    bmeta = []
+    for i in range(900 if thorough else 220):
+        stmts, val = block_program(rng, fixed=i)
+        bpool.add([(("binding_block", stmts), "const-block")])
+        bmeta.append(val)
+    bpool.run()
+    static = 0
+    for i, (want, e) in enumerate(zip(bmeta, bpool.expected)):
+        ctx.count(("cblock", bpool.sources[i]), True)
+        r = bpool.impl[i]
+        if e is None:
+            ctx.violation("constant block crashes the builder: %r" % (r,), {"case": bpool.sources[i], "impl_output": r})
+            continue
+        ev = r.get("eval") if isinstance(r, dict) else None
+        if ev is None:
+            continue                      # not evaluated statically (or rejected): always safe for C03
+        static += 1
+        if ev == "emptylist":
+            got = []
+        elif "int" in ev:
+            got = ev["int"]
+        elif "bool" in ev:
+            got = ev["bool"]
+        elif "string" in ev:
+            got = "".join(chr(c) for c in ev["string"][0])
+        elif "string_list" in ev:
+            got = ["".join(chr(c) for c in x[0]) for x in ev["string_list"]]
+        else:
+            got = ev
+        if want is UNDEF or got != want:
+            ctx.violation("the block %s is evaluated statically to %r; the value it denotes is %s" % (bpool.sources[i], got, "undefined" if want is UNDEF else repr(want)),
+                          {"case": bpool.sources[i], "impl_output": ev, "oracle_output": None if want is UNDEF else want,
+                           "theorem_or_correspondence": "S: statement-level reference evaluator"})
+    ctx.coverage["constant_blocks_evaluated_statically"] = static
+    bbad = bpool.compare_model() if ctx.model_ok else []
+    ctx.coverage["constant_block_disagreements_model"] = len(bbad)
+    if bbad and not ctx.violations:
+        ctx.broke("K", "tir/interpret.rs evaluate_code + builder vs model/Passes.v", "model and implementation differ on %d constant blocks; first:\n%s" % (len(bbad), bpool.describe_mismatch(bbad[0])))
     # ---------------- 3. whole pipeline: constants in documents -> .ui value elements
     pipeline(ctx, vh, rng, 600 if thorough else 120)
     ctx.sample({"number_literal": nums[40][0], "impl": classify_literal(impl[40])})
@@ -247,6 +287,102 @@ def run(ctx):
 
 
 pool_meta = []
+UNDEF = object()
+
+FIXED_BLOCKS = [
+    # (statements, value)
+    ([("decl", "let", [("a", None, ("array", [("str", "x"), ("str", "y")]))]), ("expr", ("assign", ("sub", ("ident", "a"), ("int", 0)), ("str", "z"))), ("return", ("ident", "a"))], ["z", "y"]),
+    ([("decl", "let", [("a", None, ("array", [("str", "x"), ("str", "y")]))]), ("expr", ("assign", ("sub", ("ident", "a"), ("int", 1)), ("str", "z"))), ("return", ("ident", "a"))], ["x", "z"]),
+    ([("decl", "let", [("a", None, ("array", [("str", "x")]))]), ("decl", "let", [("b", None, ("ident", "a"))]), ("expr", ("assign", ("sub", ("ident", "b"), ("int", 0)), ("str", "q"))), ("return", ("ident", "a"))], ["x"]),
+    ([("decl", "let", [("a", None, ("array", [("str", "x")]))]), ("decl", "let", [("b", None, ("ident", "a"))]), ("expr", ("assign", ("sub", ("ident", "b"), ("int", 0)), ("str", "q"))), ("return", ("ident", "b"))], ["q"]),
+    ([("decl", "let", [("s", None, ("str", "a"))]), ("expr", ("assign", ("ident", "s"), ("str", "b"))), ("return", ("ident", "s"))], "b"),
+    ([("decl", "let", [("n", None, ("int", 1))]), ("block", [("expr", ("assign", ("ident", "n"), ("int", 2)))]), ("return", ("ident", "n"))], 2),
+    ([("decl", "let", [("n", None, ("int", 1))]), ("block", [("decl", "let", [("n", None, ("int", 5))]), ("expr", ("assign", ("ident", "n"), ("int", 2)))]), ("return", ("ident", "n"))], 1),
+    ([("decl", "let", [("a", None, ("array", [("str", "x"), ("str", "y")]))]), ("expr", ("assign", ("sub", ("ident", "a"), ("int", 5)), ("str", "z"))), ("return", ("ident", "a"))], UNDEF),
+]
+
+
+def block_program(rng, fixed=None):
+    """a block over constants with let/const of int / string / string-list type, reassignments, element writes, nested blocks and a return;
+    returns (statements, value) where value is what the block denotes (Python reference evaluation) or UNDEF (out-of-range element write)"""
+    if fixed is not None and fixed < len(FIXED_BLOCKS):
+        return FIXED_BLOCKS[fixed]
+    scopes = [{}]              # name -> [kind, value, is_let]
+    cnt = [0]
+    undefined = [False]
+
+    def visible(kind=None, let=False):
+        out = {}
+        for sc in scopes:
+            out.update(sc)
+        return [n for n, v in out.items() if (kind is None or v[0] == kind) and (not let or v[2])]
+
+    def lookup(n):
+        for sc in reversed(scopes):
+            if n in sc:
+                return sc[n]
+
+    def expr(kind):
+        names = visible(kind)
+        if names and rng.random() < 0.5:
+            n = rng.choice(names)
+            v = lookup(n)[1]
+            return ("ident", n), (list(v) if kind == "list" else v)
+        if kind == "int":
+            v = rng.choice([0, 1, 2, 7, 100, 2 ** 31])
+            return ("int", v), v
+        if kind == "str":
+            v = rng.choice(["", "a", "b c", "é", "x\"y"])
+            return ("str", v), v
+        vs = [rng.choice(["p", "q", "r s", ""]) for _ in range(rng.randrange(1, 4))]
+        return ("array", [("str", x) for x in vs]), vs
+
+    def stmts(depth, n):
+        out = []
+        for _ in range(n):
+            c = rng.random()
+            if c < 0.35 or not visible():
+                kind = rng.choice(["int", "str", "list", "list"])
+                e, v = expr(kind)
+                name = "v%d" % cnt[0] if rng.random() < 0.8 or not visible() else rng.choice(visible())
+                cnt[0] += 1
+                if name in scopes[-1]:
+                    name = "v%d" % cnt[0]
+                    cnt[0] += 1
+                let = rng.random() < 0.7
+                scopes[-1][name] = [kind, v, let]
+                out.append(("decl", "let" if let else "const", [(name, None, e)]))
+            elif c < 0.55 and visible(let=True):
+                n_ = rng.choice(visible(let=True))
+                ent = lookup(n_)
+                e, v = expr(ent[0])
+                ent[1] = v
+                out.append(("expr", ("assign", ("ident", n_), e)))
+            elif c < 0.85 and visible("list", let=True):
+                n_ = rng.choice(visible("list", let=True))
+                ent = lookup(n_)
+                i = rng.choice([0, 0, 1, 2, len(ent[1]) - 1])
+                e, v = expr("str")
+                if 0 <= i < len(ent[1]):
+                    ent[1] = ent[1][:i] + [v] + ent[1][i + 1:]
+                else:
+                    undefined[0] = True
+                out.append(("expr", ("assign", ("sub", ("ident", n_), ("int", i)), e)))
+            elif depth < 2:
+                scopes.append({})
+                inner = stmts(depth + 1, rng.randrange(1, 4))
+                scopes.pop()
+                out.append(("block", inner))
+        return out
+
+    body = stmts(0, rng.randrange(2, 7))
+    names = visible()
+    if not names:
+        return block_program(rng)
+    n_ = rng.choice(names)
+    val = lookup(n_)[1]
+    body.append(("return", ("ident", n_)))
+    return body, (UNDEF if undefined[0] else val)
 
 
 def classify_literal(r):
